@@ -213,7 +213,7 @@ Fixpoint extract_funcs (lines : list str) (enter : bool) (name body : str)
 
 (** ---- status rules, as coded ----
     run_script / source: status of the last CommandResult of run_lines, 0 if none;
-    try_run_func: a fresh CommandResult (status 0) whatever the body did. *)
+    try_run_func (since ec16ecd): cr_list.last().map_or(0, status) of the body's run_lines. *)
 Fixpoint last_or_zero (crs : list Z) : Z :=
   match crs with
   | [] => 0%Z
@@ -221,7 +221,7 @@ Fixpoint last_or_zero (crs : list Z) : Z :=
   | _ :: r => last_or_zero r
   end.
 Definition script_status (crs : list Z) : Z := last_or_zero crs.
-Definition func_call_status (body_crs : list Z) : Z := 0%Z.
+Definition func_call_status (body_crs : list Z) : Z := last_or_zero body_crs.
 
 (** str::lines(): split at LF, a trailing CR of a line is dropped, no final empty line *)
 Fixpoint split_nl (s : str) (cur : str) : list str :=
